@@ -986,9 +986,10 @@ HEADER = '''(* GENERATED by translator/t19_mul_gen.py from cirbo/synthesis/gener
    adaptors, add_sum_two_numbers and add_sub_two_numbers are the hand models of properties C07 / C09; add_mul_wallace is
    the hand model of Model/ArithMul.v; a function that calls itself is a Fixpoint on fuel. *)
 Require Import Cirbo.Model.Base Cirbo.Model.Gate Cirbo.Model.Circuit Cirbo.Model.Builder Cirbo.Model.PyPrims.
-Require Import Cirbo.Generated.ArithTables Cirbo.Generated.ArithCells.
 Require Import Cirbo.Model.ArithSub Cirbo.Model.ArithSum2 Cirbo.Model.ArithSumN Cirbo.Model.ArithSumW.
 Require Import Cirbo.Model.PyPrims08 Cirbo.Model.ArithMul Cirbo.Model.ArithSquare.
+(* last, so that PLACEHOLDER_STR is the regenerated constant of T4 and not the one of Model/ArithMul.v *)
+Require Import Cirbo.Generated.ArithTables Cirbo.Generated.ArithCells.
 From Coq Require Import ZArith Ascii.
 Open Scope Z_scope.
 '''
